@@ -518,10 +518,20 @@ pub fn finish(ctx: &Ctx, st: &Stats, fin: Finish, replay: ReplayFn) -> i32 {
         let doc = json!({"property": ctx.id, "key": v.key, "msg": v.msg, "case": v.case});
         std::fs::write(&path, serde_json::to_string_pretty(&doc).unwrap() + "\n").unwrap();
         // replay twice without the explorer
+        // replays run in FRESH processes: an in-process replay would inherit whatever state the library keeps
+        // between calls (thread-locals, process-wide caches) from the exploration itself
         let do_replay = |case: &Value| -> Result<(), String> {
-            match replay_generic(&ctx.id, case) {
-                Some(r) => r,
-                None => replay(case),
+            if let Some(r) = replay_generic(&ctx.id, case) {
+                return r;
+            }
+            let _ = replay;
+            let exe = std::env::current_exe().map_err(|e| e.to_string())?;
+            let out = child_command(exe).arg(&ctx.id).arg("--verif-dir").arg(&ctx.verif_dir).arg("--replay-case").arg(case.to_string()).output().map_err(|e| format!("cannot spawn replay: {}", e))?;
+            let so = String::from_utf8_lossy(&out.stdout).to_string();
+            match so.lines().find(|l| l.starts_with("REPLAY ")) {
+                Some(l) if l.contains("outcome=pass") => Ok(()),
+                Some(l) => Err(l.split("msg=").nth(1).unwrap_or(l).to_string()),
+                None => Err(format!("replay process ended without a verdict (status {:?}): {}", out.status, String::from_utf8_lossy(&out.stderr).lines().rev().take(3).collect::<Vec<_>>().join(" | "))),
             }
         };
         // a run that is itself the replay of a whole-check violation (library panic in set-up code) must not
